@@ -343,7 +343,12 @@ fn judge(s: &Subject, e: &Edit, route: &'static str) -> Option<Res> {
     let mut violation = None;
     if o.accepted() {
         let what = if o.report != base.report {
-            Some("report-changed")
+            // finer cause class: a resource whose *bytes* changed while still being handed out is a
+            // different defect from a resource reference that silently disappeared
+            let d = report::diff_paths(&base.report, &o.report, 40);
+            let bytes_changed = d.iter().any(|x| x.starts_with("/__resources/") && x.contains(" != "));
+            let ref_dropped = d.iter().any(|x| x.starts_with("/__resources/") && x.contains("only in first"));
+            Some(if bytes_changed { "resource-bytes-changed" } else if ref_dropped { "resource-reference-dropped" } else { "report-changed" })
         } else if o.codes != base.codes {
             Some("codes-changed")
         } else if o.state != base.state {
